@@ -127,6 +127,11 @@ type c02Stats struct {
 	promisesChecked   int
 	delivered         int
 	dropped           int
+	persistFailed     int // persist() returned an error (injected crash-DB write failure)
+	votesDropped      int // "votes dropped due to disk persistence failure" observed
+	o5Checked         int
+	o5Unmatched       int
+	slowVotes         int
 }
 
 func (w *c02World) logf(format string, args ...interface{}) {
@@ -212,6 +217,8 @@ type c02Node struct {
 	holdKind     string
 	armVote      string // "", "deliver", "lose": crash at the first new own attest vote
 	armPersist   bool   // crash right after the next completed persist, before the checkpoint is delivered
+	slowVotes    bool   // delay the next vote task of this node until its persist has returned (fault macro)
+	failLeft     int    // crash-DB write failures still to inject (trigger installed while > 0)
 	attestSeen   bool   // an attest has been produced by the current or a previous incarnation (vote seen or persist observed)
 	crashedAfter bool   // a crash happened after an attest was produced (reset when the node votes again)
 
@@ -249,6 +256,27 @@ type c02Inc struct {
 	newOwnVotes  int
 	cutReq       *c02CutReq
 	diskHeld     bool // a disk hold was active at some time during this incarnation
+
+	// attest/persist bookkeeping (oracle 5). The k-th attest action executed by the incarnation is served by its k-th
+	// persist (FIFO: Service.do -> persistState -> asyncPersistenceLoop.pending).
+	attests     []c02VoteKey // (zero sender) keys of the attest actions executed, in order (from the "attested to" log line)
+	outcomes    []bool       // result of the k-th persist() call (true = written)
+	seqBroken   bool         // a MakeVotes call failed: attests and persists are no longer aligned
+	failedCount int
+
+	persistErr atomic.Bool  // set by "persisting failure", consumed by the "persisted state" line of the same persist() call
+	leak       atomic.Int64 // vote tasks that returned on a persistence error without monitor.dec (test-only counter leak)
+}
+
+// quietNow: true quiescence of the incarnation. A vote task that is told "persist failed" returns without
+// decrementing the (test-only) pseudonode counter; those are discounted.
+func (i *c02Inc) quietNow() bool {
+	c, sum, _ := i.activity()
+	if sum == 0 {
+		return true
+	}
+	lk := uint(i.leak.Load())
+	return lk > 0 && sum == lk && c[pseudonodeCoserviceType] == lk
 }
 
 func (n *c02Node) owns(a basics.Address) bool {
@@ -543,6 +571,31 @@ func (w *c02World) emit(inc *c02Inc, tag protocol.Tag, data []byte, exclude int)
 				w.hist = append(w.hist, fmt.Sprintf("%04d VIOLATION %s", len(w.hist), s))
 			}
 		}
+		// oracle 5: a new own attest vote is released only if (one of) the attest action(s) it comes from had its state
+		// written successfully: persist() returned nil for it - not "has not returned yet", not "failed".
+		if isNew && !inc.seqBroken && !c02Off("o5") {
+			found, okPersist := false, false
+			for idx, ak := range inc.attests {
+				if ak.Round == k.Round && ak.Period == k.Period && ak.Step == k.Step {
+					found = true
+					if idx < len(inc.outcomes) && inc.outcomes[idx] {
+						okPersist = true
+					}
+				}
+			}
+			switch {
+			case !found:
+				w.st.o5Unmatched++
+			case !okPersist:
+				w.st.o5Checked++
+				s := fmt.Sprintf("VOTE RELEASED WITHOUT A SUCCESSFUL PERSIST: n%d.%d released new own vote (r%d p%d s%d %s) but no persist() of an attest for that step has succeeded (attests %d, persist outcomes %v); crash DB %v",
+					n.idx, inc.id, k.Round, k.Period, k.Step, c02Val(own.val), len(inc.attests), inc.outcomes, dpos)
+				w.viol = append(w.viol, s)
+				w.hist = append(w.hist, fmt.Sprintf("%04d VIOLATION %s", len(w.hist), s))
+			default:
+				w.st.o5Checked++
+			}
+		}
 		if isNew && n.armVote != "" && !inc.cut.Load() && inc.cutReq == nil {
 			cut = &c02CutReq{inc: inc, kind: "vote", release: make(chan struct{}), desc: n.armVote}
 			inc.cutReq = cut
@@ -676,18 +729,30 @@ type c02Logger struct {
 	logging.Logger
 	inc       *c02Inc
 	persisted bool
+	attest    bool
+	ar, ap, as uint64
 }
 
 func (l c02Logger) With(key string, value interface{}) logging.Logger {
-	return c02Logger{Logger: l.Logger.With(key, value), inc: l.inc, persisted: l.persisted}
+	l.Logger = l.Logger.With(key, value)
+	return l
 }
 
 func (l c02Logger) WithFields(f logging.Fields) logging.Logger {
-	p := false
-	if ty, ok := f["Type"].(string); ok && ty == logspec.Persisted.String() {
-		p = true
+	l.Logger = l.Logger.WithFields(f)
+	l.persisted, l.attest = false, false
+	if ty, ok := f["Type"].(string); ok {
+		switch ty {
+		case logspec.Persisted.String():
+			l.persisted = true
+		case logspec.VoteAttest.String():
+			l.attest = true
+			l.ar, _ = f["Round"].(uint64)
+			l.ap, _ = f["Period"].(uint64)
+			l.as, _ = f["Step"].(uint64)
+		}
 	}
-	return c02Logger{Logger: l.Logger.WithFields(f), inc: l.inc, persisted: p}
+	return l
 }
 
 func (l c02Logger) Info(args ...interface{}) {
@@ -699,26 +764,141 @@ func (l c02Logger) Info(args ...interface{}) {
 	l.Logger.Info(args...)
 }
 
-// persistedHook runs on the persistence-loop goroutine of inc.
-func (w *c02World) persistedHook(inc *c02Inc) {
+func (l c02Logger) Infof(format string, args ...interface{}) {
+	switch {
+	case l.attest && strings.HasPrefix(format, "attested to "):
+		// actions.go pseudonodeAction.do, case attest: logged before MakeVotes/persistState
+		w := l.inc.node.w
+		w.mu.Lock()
+		l.inc.attests = append(l.inc.attests, c02VoteKey{Round: round(l.ar), Period: period(l.ap), Step: step(l.as)})
+		w.mu.Unlock()
+	case format == "pseudonode: made %v votes":
+		// pseudonodeVotesTask.execute, right after signing and before verification / the wait for persistStateDone
+		l.inc.node.w.slowVotesHook(l.inc)
+	}
+	l.Logger.Infof(format, args...)
+}
+
+func (l c02Logger) Errorf(format string, args ...interface{}) {
+	switch {
+	case format == "persisting failure: %v":
+		l.inc.persistErr.Store(true)
+	case strings.HasPrefix(format, "pseudonode.MakeVotes call failed"):
+		w := l.inc.node.w
+		w.mu.Lock()
+		l.inc.seqBroken = true
+		w.mu.Unlock()
+	}
+	l.Logger.Errorf(format, args...)
+}
+
+func (l c02Logger) Warnf(format string, args ...interface{}) {
+	if strings.HasPrefix(format, "pseudonode.makeVotes: %v votes dropped due to disk persistence") {
+		// the task returns right after this line without monitor.dec(pseudonodeCoserviceType)
+		w := l.inc.node.w
+		w.mu.Lock()
+		w.st.votesDropped++
+		w.hist = append(w.hist, fmt.Sprintf("%04d   n%d.%d votes dropped due to persistence failure", len(w.hist), l.inc.node.idx, l.inc.id))
+		w.mu.Unlock()
+		l.inc.leak.Add(1)
+	}
+	l.Logger.Warnf(format, args...)
+}
+
+// slowVotesHook runs on the vote task's goroutine: when armed, the task is kept busy until the persist of its attest
+// has returned (and a little longer), so that the checkpoint is processed while the task is not yet waiting for
+// persistStateDone. Pure provocation; on correct code checkpointAction.do blocks until the task takes the error.
+func (w *c02World) slowVotesHook(inc *c02Inc) {
 	n := inc.node
-	var cut *c02CutReq
 	w.mu.Lock()
-	w.st.persistHook++
-	inc.persists++
-	n.attestSeen = true
-	w.hist = append(w.hist, fmt.Sprintf("%04d   n%d.%d persist completed (#%d)", len(w.hist), n.idx, inc.id, inc.persists))
-	if n.armPersist && !inc.cut.Load() && inc.cutReq == nil {
-		cut = &c02CutReq{inc: inc, kind: "persist", release: make(chan struct{})}
-		inc.cutReq = cut
+	armed := n.slowVotes && !inc.cut.Load()
+	base := len(inc.outcomes)
+	if armed {
+		n.slowVotes = false
+		w.st.slowVotes++
+		w.hist = append(w.hist, fmt.Sprintf("%04d   n%d.%d vote task delayed until its persist returns", len(w.hist), n.idx, inc.id))
 	}
 	w.mu.Unlock()
+	if !armed {
+		return
+	}
+	t0 := time.Now()
+	for time.Since(t0) < 10*time.Second {
+		w.mu.Lock()
+		done := len(inc.outcomes) > base
+		w.mu.Unlock()
+		if done || inc.cut.Load() {
+			break
+		}
+		time.Sleep(200 * time.Microsecond)
+	}
+	time.Sleep(150 * time.Millisecond)
+}
+
+// persistedHook runs on the persistence-loop goroutine of inc, at the end of persist() (success or failure).
+func (w *c02World) persistedHook(inc *c02Inc) {
+	n := inc.node
+	failed := inc.persistErr.Swap(false)
+	var cut *c02CutReq
+	dropTrigger := false
+	w.mu.Lock()
+	inc.outcomes = append(inc.outcomes, !failed)
+	if failed {
+		w.st.persistFailed++
+		inc.failedCount++
+		if inc.promiseState == "pending" {
+			inc.promiseState = "void"
+		}
+		if n.failLeft > 0 {
+			n.failLeft--
+			dropTrigger = n.failLeft == 0
+		}
+		w.hist = append(w.hist, fmt.Sprintf("%04d   n%d.%d persist FAILED (#%d)", len(w.hist), n.idx, inc.id, len(inc.outcomes)))
+	} else {
+		w.st.persistHook++
+		inc.persists++
+		n.attestSeen = true
+		w.hist = append(w.hist, fmt.Sprintf("%04d   n%d.%d persist completed (#%d)", len(w.hist), n.idx, inc.id, len(inc.outcomes)))
+		if n.armPersist && !inc.cut.Load() && inc.cutReq == nil {
+			cut = &c02CutReq{inc: inc, kind: "persist", release: make(chan struct{})}
+			inc.cutReq = cut
+		}
+	}
+	w.mu.Unlock()
+	if dropTrigger {
+		n.failTriggerOff()
+	}
 	if cut != nil {
 		select {
 		case <-cut.release:
 		case <-time.After(90 * time.Second):
 		}
 	}
+}
+
+// failTriggerOn makes every write of the crash state fail ("disk full"): persist() returns an error.
+func (n *c02Node) failTriggerOn(times int) bool {
+	err := n.accessor.Atomic(func(ctx context.Context, tx *sql.Tx) error {
+		_, e := tx.Exec("CREATE TRIGGER IF NOT EXISTS c02_fail BEFORE INSERT ON Service BEGIN SELECT RAISE(FAIL, 'c02: disk full'); END")
+		return e
+	})
+	if err != nil {
+		return false
+	}
+	n.w.mu.Lock()
+	n.failLeft = times
+	n.w.mu.Unlock()
+	return true
+}
+
+func (n *c02Node) failTriggerOff() {
+	n.w.mu.Lock()
+	n.failLeft = 0
+	n.w.mu.Unlock()
+	_ = n.accessor.Atomic(func(ctx context.Context, tx *sql.Tx) error {
+		_, e := tx.Exec("DROP TRIGGER IF EXISTS c02_fail")
+		return e
+	})
 }
 
 // ---------------------------------------------------------------------------------------------------------------
